@@ -508,6 +508,51 @@ func c02Presence(c *Ctx, ep *EmittedPkg) {
 // bound field (param.FieldName), in every error arm.
 func binderViolationFields(c *Ctx, ep *EmittedPkg, rid string) {
 	r := c.R
+	// fieldOf: the Field expression of a FieldViolation literal
+	fieldOf := func(cl *ast.CompositeLit) ast.Expr {
+		for _, el := range cl.Elts {
+			if kv, ok := el.(*ast.KeyValueExpr); ok {
+				if id, ok := kv.Key.(*ast.Ident); ok && id.Name == "Field" {
+					return kv.Value
+				}
+			}
+		}
+		return nil
+	}
+	isViolation := func(nd ast.Node) (*ast.CompositeLit, bool) {
+		cl, ok := nd.(*ast.CompositeLit)
+		if !ok {
+			return nil, false
+		}
+		tv, ok := ep.Info.Types[cl]
+		return cl, ok && typeIsNamed(tv.Type, "sebuf/http", "FieldViolation")
+	}
+	// helper constructors: emitted functions that build a violation whose Field is one of their parameters
+	// (func newParamViolation(field, description string) …): parameter index by function
+	helperParam := map[string]int{}
+	for name, fd := range ep.Funcs {
+		if fd.Body == nil || fd.Type.Params == nil {
+			continue
+		}
+		var params []string
+		for _, p := range fd.Type.Params.List {
+			for _, n := range p.Names {
+				params = append(params, n.Name)
+			}
+		}
+		ast.Inspect(fd.Body, func(nd ast.Node) bool {
+			if cl, ok := isViolation(nd); ok {
+				if id, ok := fieldOf(cl).(*ast.Ident); ok {
+					for i, pn := range params {
+						if pn == id.Name {
+							helperParam[name] = i
+						}
+					}
+				}
+			}
+			return true
+		})
+	}
 	for _, name := range []string{"bindPathParams", "bindQueryParams"} {
 		f := ep.Funcs[name]
 		if f == nil {
@@ -515,26 +560,27 @@ func binderViolationFields(c *Ctx, ep *EmittedPkg, rid string) {
 			continue
 		}
 		n := 0
-		ast.Inspect(f.Body, func(nd ast.Node) bool {
-			cl, ok := nd.(*ast.CompositeLit)
-			if !ok {
-				return true
-			}
-			tv, ok := ep.Info.Types[cl]
-			if !ok || !typeIsNamed(tv.Type, "sebuf/http", "FieldViolation") {
-				return true
-			}
+		check := func(e ast.Expr, pos token.Pos) {
 			n++
 			fieldExpr := ""
-			for _, el := range cl.Elts {
-				if kv, ok := el.(*ast.KeyValueExpr); ok {
-					if id, ok := kv.Key.(*ast.Ident); ok && id.Name == "Field" {
-						fieldExpr = types.ExprString(kv.Value)
+			if e != nil {
+				fieldExpr = types.ExprString(e)
+			}
+			r.Check(fieldExpr == "param.FieldName", rid, fmt.Sprintf("%s violation #%d names param.FieldName", name, n), ep.GenPos(pos),
+				"a URL-binding violation does not name the bound field (Field: "+fieldExpr+")")
+		}
+		ast.Inspect(f.Body, func(nd ast.Node) bool {
+			if cl, ok := isViolation(nd); ok {
+				check(fieldOf(cl), cl.Pos())
+				return true
+			}
+			if call, ok := nd.(*ast.CallExpr); ok {
+				if cal := ep.CalleeOf(call); cal != nil {
+					if idx, ok := helperParam[cal.Name()]; ok && idx < len(call.Args) {
+						check(call.Args[idx], call.Pos())
 					}
 				}
 			}
-			r.Check(fieldExpr == "param.FieldName", rid, fmt.Sprintf("%s violation #%d names param.FieldName", name, n), ep.GenPos(cl.Pos()),
-				"a URL-binding violation does not name the bound field (Field: "+fieldExpr+")")
 			return true
 		})
 	}
